@@ -3,10 +3,10 @@
 # scratch worktree of /repo (so /repo stays free), write seeded/RESULTS.md.
 T=${1:-quick}
 F=${2:-.}
-R=/tmp/repo-seeds
+R=${SWEEP_REPO:-/tmp/repo-seeds}
 git -C /repo worktree list | grep -q "$R " || git -C /repo worktree add --detach $R HEAD -q
 git -C $R checkout -q --detach $(git -C /repo rev-parse HEAD) && git -C $R checkout -- .
-OUT=/verif/seeded/RESULTS.md
+OUT=${SWEEP_OUT:-/verif/seeded/RESULTS.md}
 if [ "$F" = "." ]; then
 echo "# Seeded changes vs the $T checks ($(date -u +%F))" > $OUT
 echo >> $OUT
